@@ -155,6 +155,7 @@ func runC15(c *core.Ctx) {
 	}
 	c15Writer(c, both, br)
 	// the merged listing is sorted by the unifier itself (members promise no order for referrers)
+	wrapperHoldsItsRegistries(c, "C15.R0", "ociunify", "New")
 	c05SortedIn(c, "C15.R4", []string{"ociunify"})
 	sequentialFallsBackOnAnyFailure(c, "C15.R5")
 	cancelBeforeReturnNotForReaders(c, "C15.R6")
